@@ -9,21 +9,22 @@
 (* collide.  The probe loops of find_file_entry and add_to_hash_table are explicit micro-steps     *)
 (* (one slot examined per step) so that their termination is a checked property.                   *)
 (*                                                                                                 *)
-(* The module describes two machines over the same state:                                          *)
+(* The module describes three machines over the same state:                                        *)
 (*   DesignSteps/DesignSyncs  the intended design                                                  *)
-(*   CodeSteps/CodeSyncs      the design with the implementation's deviations as named alternative *)
-(*                            actions:                                                             *)
-(*        InsertSpin            add_to_hash_table has no bound: with no Empty/Deleted slot it      *)
-(*                              cycles through the table forever                         F-C06-b   *)
-(*        WriteTablesInPlace    write_tables rewrites the grown block table at its old position;   *)
-(*                              entries beyond the slack overwrite the first appended file F-C06-a *)
-(*        WriteTablesV3Broken   V3/V4: placeholder HET/BET at the cursor, header only updated when *)
-(*                              the block count changed                                  F-C06-c   *)
-(*        CompactStale          compact() takes the names from the Archive opened at open() (stale *)
-(*                              listfile): session additions / everything without listfile lost    *)
-(*                                                                                       F-C06-d   *)
-(*        AppendFixKeyWrongKey  fix_key sets the flag but encrypts with the unadjusted key F-C06-e *)
+(*   CodeSteps/CodeSyncs      the implementation AS IT IS NOW: the design with its remaining       *)
+(*                            deviations as named alternative actions                              *)
+(*        WriteTablesV3Broken      V3/V4: placeholder HET/BET at the cursor, header only updated   *)
+(*                                 when the block count changed                          F-C06-c   *)
 (*        InsertRenameKeepsOldKey  rename_file leaves encrypted data under the old name's key      *)
+(*        InsertAddSubstr / LFAddSubstr  update_listfile tests `content.contains(name)`: a name    *)
+(*                                 that is a SUBSTRING of a listed one is not added to (listfile)  *)
+(*        CompactFresh             compact() names files through the (listfile): without one, or   *)
+(*                                 for a name missing from it, the file is copied under a          *)
+(*                                 placeholder name (lost); a file that fails to decode is skipped *)
+(*   Code0Steps/Code0Syncs    the implementation before the fix commits 20d617c c4da446 5040b10    *)
+(*                            a3b171c (kept so that TLC keeps refuting the old behaviour):         *)
+(*        InsertSpin (F-C06-b), WriteTablesInPlace (F-C06-a), CompactStale (F-C06-d),              *)
+(*        AddAppendFixKeyWrongKey (F-C06-e), AddAppendNoCheck                                      *)
 (* `devs` records which deviation changed the outcome of the behaviour so far.  Gen_MpqHashTable   *)
 (* runs the Code machine to generate histories and to predict what the real code will do.          *)
 (*                                                                                                 *)
@@ -39,6 +40,7 @@ CONSTANTS H,          \* number of hash slots
           InitSeq,    \* names present in the starting archive, in builder order (sequence, no LF)
           InitTok,    \* [name in InitSeq -> token]
           InitRaw,    \* names of InitSeq stored raw (neither compressed nor encrypted)
+          SubOf,      \* [UNames -> SUBSET UNames]: names whose SPELLING contains this name's spelling
           HasLF0,     \* starting archive carries a (listfile)
           HasAT0,     \* starting archive carries an (attributes) file (occupies a slot and a block)
           Slack, FU,
@@ -130,6 +132,11 @@ LFRewrite(st, content) ==
              blocks |-> [st.blocks EXCEPT ![b] = [tok |-> content, pos |-> st.cursor, z |-> FALSE, cmp |-> FALSE, kn |-> ""]],
              cursor |-> st.cursor + FU]
 LFAdd(st, n) == IF ~vlf \/ SlotOf(st.slots, LF) = {} THEN st ELSE LFRewrite(st, LFContent(st.slots, st.blocks) \cup {n})
+\* deviation: update_listfile appends the name unless `content.contains(name)` - a substring test,
+\* not a line test: a name spelled inside an already listed name is never listed
+LFHides(st, n) == vlf /\ SlotOf(st.slots, LF) # {} /\ n \notin LFContent(st.slots, st.blocks)
+                      /\ LFContent(st.slots, st.blocks) \cap SubOf[n] # {}
+LFAddSubstr(st, n) == IF LFHides(st, n) THEN st ELSE LFAdd(st, n)
 LFDel(st, n) == IF ~vlf \/ SlotOf(st.slots, LF) = {} THEN st ELSE LFRewrite(st, LFContent(st.slots, st.blocks) \ {n})
 
 (* ---------------------------------- starting archive ------------------------------------------ *)
@@ -275,6 +282,11 @@ InsertAdd ==
     /\ pc = "add_ins" /\ Free(hslots[pidx])
     /\ Complete([hslots EXCEPT ![pidx] = Occ(opr.n, opr.blk)], hblocks, LAMBDA st : LFAdd(st, opr.n))
     /\ UNCHANGED devs
+CurSt(slots1) == [slots |-> slots1, blocks |-> hblocks, cursor |-> hcursor]
+InsertAddSubstr ==
+    /\ pc = "add_ins" /\ Free(hslots[pidx])
+    /\ Complete([hslots EXCEPT ![pidx] = Occ(opr.n, opr.blk)], hblocks, LAMBDA st : LFAddSubstr(st, opr.n))
+    /\ devs' = IF LFHides(CurSt(hslots), opr.n) THEN devs \cup {"substr"} ELSE devs
 \* designed: the file key depends on the name, so renaming an encrypted file re-encrypts its data
 InsertRenameReencrypt ==
     /\ pc = "rn_ins" /\ Free(hslots[pidx])
@@ -286,8 +298,9 @@ InsertRenameReencrypt ==
 \* encrypted under the key of the OLD name and reads back as garbage under the new one
 InsertRenameKeepsOldKey ==
     /\ pc = "rn_ins" /\ Free(hslots[pidx])
-    /\ Complete([hslots EXCEPT ![pidx] = Occ(opr.m, opr.blk)], hblocks, LAMBDA st : LFAdd(LFDel(st, opr.n), opr.m))
-    /\ devs' = IF hblocks[opr.blk].kn \notin {"", "!", opr.m} THEN devs \cup {"renkey"} ELSE devs
+    /\ Complete([hslots EXCEPT ![pidx] = Occ(opr.m, opr.blk)], hblocks, LAMBDA st : LFAddSubstr(LFDel(st, opr.n), opr.m))
+    /\ devs' = devs \cup (IF hblocks[opr.blk].kn \notin {"", "!", opr.m} THEN {"renkey"} ELSE {})
+                     \cup (IF LFHides(LFDel(CurSt(hslots), opr.n), opr.m) THEN {"substr"} ELSE {})
 InsertAdvance ==
     /\ pc \in InsPcs /\ ~Free(hslots[pidx]) /\ pcnt + 1 < H
     /\ pidx' = (pidx + 1) % H /\ pcnt' = pcnt + 1
@@ -360,15 +373,40 @@ CompactStale ==
     /\ CompactTo(keep, 0)
     /\ devs' = IF keep # SessView THEN devs \cup {"compact"} ELSE devs
 
-(* ---------------------------------- the two machines --------------------------------------------- *)
+\* the implementation now: flush, re-open, then name every live entry through the (listfile) of the
+\* file as it is; no listfile / name not listed => placeholder name (lost under its own); a file whose
+\* stored form does not decode is skipped with a log line
+ListedNow == IF vlf /\ SlotOf(hslots, LF) # {} THEN LFContent(hslots, hblocks) \cap UNames ELSE {}
+CompactFresh ==
+    LET keep == [n \in UNames |-> IF n \notin ListedNow \/ SessView[n] \in BadErrToks THEN None ELSE SessView[n]]
+        live == {n \in UNames : SessView[n] # None} IN
+    /\ Ver < 3
+    /\ CompactTo(keep, 0)
+    /\ devs' = devs \cup (IF ~vlf /\ live # {} THEN {"nolistfile"} ELSE {})
+                     \cup (IF vlf /\ live \ ListedNow # {} THEN {"unlisted"} ELSE {})
+                     \cup (IF \E n \in live \cap ListedNow : SessView[n] \in BadErrToks THEN {"dropunreadable"} ELSE {})
+\* V3/V4: compact() starts with the broken flush; what follows is not modelled (blanket F-C06-c)
+CompactV3 ==
+    /\ Ver >= 3
+    /\ CompactTo([n \in UNames |-> IF n \in ListedNow THEN SessView[n] ELSE None], 0)
+    /\ devs' = devs \cup (IF wdirty THEN {"v34flush"} ELSE {}) \cup (IF ~vlf THEN {"nolistfile"} ELSE {})
+
+(* ---------------------------------- the machines --------------------------------------------- *)
 \* steps shared by both
-CommonSteps == \/ FindStep \/ AddRefuseExists \/ InsertAdd \/ InsertAdvance
+CommonSteps == \/ FindStep \/ AddRefuseExists \/ InsertAdvance
                \/ RemoveRefuse \/ RemoveMark
                \/ RenameRefuseSrc \/ RenameSrcFound \/ RenameRefuseDst \/ RenameMark
-DesignSteps == CommonSteps \/ AddRefuseFull \/ AddAppend \/ InsertRenameReencrypt \/ InsertGiveUp
-CodeSteps   == CommonSteps \/ AddAppendNoCheck \/ AddAppendFixKeyWrongKey \/ InsertRenameKeepsOldKey \/ InsertSpin
+DesignSteps == CommonSteps \/ AddRefuseFull \/ AddAppend \/ InsertAdd \/ InsertRenameReencrypt \/ InsertGiveUp
 DesignSyncs == Open \/ FlushClean \/ CloseClean \/ FlushRelocate \/ CloseRelocate \/ CompactDesigned
-CodeSyncs   == Open \/ FlushClean \/ CloseClean \/ FlushInPlace \/ CloseInPlace \/ FlushV3Broken \/ CloseV3Broken \/ CompactStale
+\* as coded now
+FlushRelocateV12 == Ver < 3 /\ FlushRelocate
+CloseRelocateV12 == Ver < 3 /\ CloseRelocate
+CodeSteps   == CommonSteps \/ AddRefuseFull \/ AddAppend \/ InsertAddSubstr \/ InsertRenameKeepsOldKey \/ InsertGiveUp
+CodeSyncs   == Open \/ FlushClean \/ CloseClean \/ FlushRelocateV12 \/ CloseRelocateV12 \/ FlushV3Broken \/ CloseV3Broken
+               \/ CompactFresh \/ CompactV3
+\* as coded before the fix commits
+Code0Steps  == CommonSteps \/ AddAppendNoCheck \/ AddAppendFixKeyWrongKey \/ InsertAddSubstr \/ InsertRenameKeepsOldKey \/ InsertSpin
+Code0Syncs  == Open \/ FlushClean \/ CloseClean \/ FlushInPlace \/ CloseInPlace \/ FlushV3Broken \/ CloseV3Broken \/ CompactStale
 
 (* ---------------------------------- invariants --------------------------------------------------- *)
 SlotType == \A i \in Slots : /\ hslots[i].st \in {"E", "D", "O"}
